@@ -25,6 +25,10 @@ def matvec(a, v):
 
 _H = dict(M=M, matmul3=matmul3, mateq=mateq, matvec=matvec)
 _N = "self._pos.shape[0]"
+# representation invariant behind "copy=True never alters the original, for all sequences of calls": distinct Molecules
+# objects never share a position buffer (in-place updates of one then cannot reach another)
+_OWN = "implies(copy, result._pos is not self._pos)"
+_OWN_NATIVE = "(not copy) or (result._pos is not self._pos and not np.shares_memory(result._pos, self._pos))"
 
 
 for _ax, _col in (("x", 2), ("y", 1), ("z", 0)):
@@ -56,7 +60,7 @@ def _rotate_by_result(interp, bound):
     rot = RotV.symbolic(V.fresh_name("rotated"), None, so3=False, n=n)
     feat = me.attrs["_features"]
     if bound["copy"] is True:
-        return X.Obj(me.cls, {"_pos": me.attrs["_pos"], "_rotator": rot,
+        return X.Obj(me.cls, {"_pos": me.attrs["_pos"].copy(), "_rotator": rot,
                               "_features": feat.clone() if feat is not None else None})
     interp.setattr(me, "_rotator", rot)
     return me
@@ -72,12 +76,13 @@ class rotate_by:
     imports = NATIVE_IMPORTS
     native_call = "args['self'].rotate_by(args['rotator'], copy=args['copy'])"
     native = {"left_composition": "np.allclose(result.rotator.as_matrix(), rotator.as_matrix() @ _old_rot)" ,
-              "positions_fixed": "True", "frame_copy": "True"}
+              "positions_fixed": "True", "frame_copy": "True", "copy_owns_its_positions": _OWN_NATIVE}
     ensures = {
         "left_composition": "forall(lambda i: mateq(M(result._rotator, i), matmul3(M(rotator, i), M(old(self)._rotator, i))), "
                             "(0, %s))" % _N,
         "positions_fixed": "forall(lambda i: all(result._pos[i, a] == old(self)._pos[i, a] for a in range(3)), (0, %s))" % _N,
         "frame_copy": "implies(copy, writes_to(self) == 0 and result is not self)",
+        "copy_owns_its_positions": _OWN,
     }
 
 
@@ -88,13 +93,33 @@ class translate_internal:
     helpers = _H
     imports = NATIVE_IMPORTS
     native_call = "args['self'].translate_internal(args['shifts'], copy=args['copy'])"
-    native = {"own_frame": "True", "rotator_kept": "True", "frame_copy": "True"}
+    native = {"own_frame": "True", "rotator_kept": "True", "frame_copy": "True", "copy_owns_its_positions": _OWN_NATIVE}
     ensures = {
         "own_frame": "forall(lambda i: all(result._pos[i, a] == old(self)._pos[i, a] + "
                      "matvec(M(old(self)._rotator, i), (shifts[i, 0], shifts[i, 1], shifts[i, 2]))[a] for a in range(3)), "
                      "(0, %s))" % _N,
         "rotator_kept": "result._rotator is old(self)._rotator",
         "frame_copy": "implies(copy, writes_to(self) == 0 and result is not self)",
+        "copy_owns_its_positions": _OWN,
+    }
+
+
+@contract("acryo.molecules.core:Molecules.translate", props=["C11"])
+class translate:
+    """world translation: pos_i + v_i (one shift for all molecules or one per molecule); orientation unchanged;
+    copy=True leaves the receiver intact and shares no position buffer with it"""
+    params = dict(self=_M, shifts=T.OneOf(TArrN("self_N", 3), T.Arr(1, "real", shape=(3,))), copy=T.OneOf(True, False))
+    helpers = dict(_H, sh=lambda s_, i, a: s_[i, a] if s_.ndim == 2 else s_[a])
+    imports = NATIVE_IMPORTS
+    native_call = "args['self'].translate(args['shifts'], copy=args['copy'])"
+    native = {"world_frame": "np.allclose(result.pos, _old_pos + np.asarray(shifts), atol=1e-4)", "rotator_kept": "True",
+              "frame_copy": "True", "copy_owns_its_positions": _OWN_NATIVE}
+    ensures = {
+        "world_frame": "forall(lambda i: all(result._pos[i, a] == old(self)._pos[i, a] + sh(shifts, i, a) for a in range(3)), "
+                       "(0, %s))" % _N,
+        "rotator_kept": "result._rotator is old(self)._rotator",
+        "frame_copy": "implies(copy, writes_to(self) == 0 and result is not self)",
+        "copy_owns_its_positions": _OWN,
     }
 
 
